@@ -2,7 +2,7 @@
 # reconfirm_flaky.sh <seed-out-dir> <crate> "<test name filters>": with the change applied, re-run the
 # tests that failed in confirm_seed.sh's suite run (load-sensitive wall-clock tests) single-threaded,
 # up to 3 times; appends the outcome to <dir>/confirm.log and rewrites the VERDICT line's suite_with.
-d="$1"; crate="$2"; filters="$3"; extra="$4"
+d="$1"; crate="$2"; filters="$3"; extra="$4"; tgt="${5:---lib}"
 wt=/tmp/seed/confirm-wt-$$
 export CARGO_TARGET_DIR=${CONFIRM_TARGET:-/tmp/seed/confirm-target} CARGO_NET_OFFLINE=true
 unset RUSTFLAGS
@@ -12,7 +12,7 @@ ok=1
 for t in $filters; do
   pass=0
   for i in 1 2 3; do
-    if cargo test --offline -p "$crate" $extra --lib -- "$t" --test-threads=1 >> "$d/reconfirm.log" 2>&1; then pass=1; break; fi
+    if cargo test --offline -p "$crate" $extra $tgt -- "$t" --test-threads=1 >> "$d/reconfirm.log" 2>&1; then pass=1; break; fi
   done
   echo "== re-run WITH change (single-threaded, <=3 tries): $t -> $([ $pass = 1 ] && echo passed || echo FAILED)" | tee -a "$d/confirm.log"
   [ $pass = 1 ] || ok=0
